@@ -44,6 +44,10 @@ def run(ctx):
     cands = [g for g in cands if g.has_error()]
     recs, stats, ws = lrcommon.prepare_parsers(ctx, cands, flags=[])
     recs = [r for r in recs if r.bin][: (30 if not thorough else 300)]
+    # the same property for the parser generated with -zip (tables, canRecover included, travel through gob + gzip and are decoded in init):
+    # a part of the grammars a second time
+    zrecs, zstats, ws = lrcommon.prepare_parsers(ctx, [r.g for r in recs[: (8 if not thorough else 60)]], flags=["-zip"], ws=ws, prefix="z")
+    recs = recs + [r for r in zrecs if r.bin]
     res, errs = check_all_recovery(recs)
     total = disagreements = reported = 0
     distinct = set()
